@@ -29,7 +29,8 @@ MC_INV = [
     "GraphAccepted", "RejectedIsOutside",
     "GridTotal", "ConsumerTotal", "ProducerTotal", "BatteryTotal", "PVTotal", "PVDfsTotal", "EVTotal", "CHPTotal",
     "Generated", "FallbackEqualsPrimary", "Balance",
-    "DevIsTight", "PVTwoWaysAgree", "TruthBalances",
+    "NoDeviation", "LegacyWrongIffCause", "LegacyBalanceWrongIffCause", "RepairOnlyWhereCause",
+    "PVTwoWaysAgree", "TruthBalances",
 ]
 ACTIONS = [
     "ChooseTopology", "GenGridStep", "GenConsumerStep", "GenProducerStep", "GenBatteryStep",
